@@ -90,6 +90,8 @@ inductive TrxAct
   | decoderStop         -- _handle_disconnect / RTCP BYE: the decoder thread gets its sentinel
   | mkTrack             -- setRemoteDescription created the RemoteStreamTrack
   | assign (k : Nat)    -- BUNDLE: receiver/sender.setTransport
+  | cancel (w : Which)  -- a stop() called by the application (RTCRtpTransceiver.stop()) cancelled the task: it, too, has
+                        -- waited for `started` first
   deriving DecidableEq, Repr
 
 /-- `live`: a `__connect` task is running and has not been cancelled (only such a task starts anything) -/
@@ -105,6 +107,7 @@ def trxStep (live : Bool) (t : Trx) : TrxAct → Option Trx
   | .decoderStop => if t.decoder = .running then some { t with decoder := .exited, trackEnd := true } else none
   | .mkTrack => some { t with hasTrack := true }
   | .assign k => if t.rtp.pc = .none && t.srtcp.pc = .none && t.rrtcp.pc = .none then some { t with tpt := k } else none
+  | .cancel w => if (t.get w).started then some (t.set w (t.get w).cancel) else none
 
 /-! ## transports -/
 
@@ -133,6 +136,9 @@ structure Tpt where
   inSet : Bool := true            -- member of `__dtlsTransports` (false once discarded by BUNDLE)
   dtlsStop : Nat := 0             -- position inside `RTCDtlsTransport.stop()`
   iceStop : Nat := 0              -- position inside `RTCIceTransport.stop()`
+  nstop : Nat := 0                -- position of the BUNDLE clean-up a setRemoteDescription() call runs on this transport:
+                                  -- 0 none, 1 `await dtls.stop()`, 2 `await ice.stop()` (state closed, sockets closing),
+                                  -- 3 aioice closed, 4 discarded from the connection's transport sets
   deriving DecidableEq, Repr
 
 namespace Tpt
@@ -145,7 +151,8 @@ inductive TptAct
   | iceStart | iceDone (ok : Bool) | dtlsStart | dtlsUp | dtlsFail
   | pumpExit            -- cancelled, or the peer closed DTLS / the ICE connection was lost
   | monFirst | monExit
-  | discard             -- BUNDLE: stopped (never started) and removed from the connection's transport sets
+  | nstep               -- next step of the BUNDLE clean-up of a setRemoteDescription() call: the transport (never started,
+                        -- no longer used by any m-section) is stopped and then discarded from the connection's sets
   deriving DecidableEq, Repr
 
 def tptStep (live : Bool) (t : Tpt) : TptAct → Option Tpt
@@ -159,8 +166,14 @@ def tptStep (live : Bool) (t : Tpt) : TptAct → Option Tpt
   | .pumpExit => if t.pump = .live then some { t with pump := .exited, pumpCancel := false, dtls := .closed } else none
   | .monFirst => if t.monitor = .queued then some { t with monitor := .waiting } else none
   | .monExit => if t.monitor = .waiting && t.connClosed then some { t with monitor := .exited } else none
-  | .discard =>
-    if t.unstarted then some { t with ice := .closed, connClosed := true, inSet := false } else none
+  | .nstep =>
+    if t.unstarted then
+      if t.nstop = 0 then some { t with nstop := 1 }
+      else if t.nstop = 1 then some { t with ice := .closed, nstop := 2 }
+      else if t.nstop = 2 then some { t with connClosed := true, nstop := 3 }
+      else if t.nstop = 3 then some { t with inSet := false, nstop := 4 }
+      else none
+    else none
 
 /-! ## SCTP transport and data channels -/
 
@@ -214,6 +227,7 @@ inductive APc | none | queued | ran
 structure State where
   trxs : List Trx := []
   tpts : List Tpt := []
+  tset : List Nat := []         -- `__dtlsTransports` / `__iceTransports` (they always change together), as a list of indices
   sctp : Option Sctp := none
   conns : List Conn := []
   inflight : Nat := 0           -- setLocalDescription / setRemoteDescription calls past their closed-check
@@ -270,6 +284,13 @@ def allDtlsClosed (s : State) : Bool :=
 /-- `__updateConnectionState`: once every DTLS transport is closed the connection closes itself -/
 def autoTrigger (s : State) : State :=
   if !s.closed && s.auto = .none && s.allDtlsClosed then { s with auto := .queued } else s
+
+/-- transport `k` exists and no clean-up is running on it (only such a transport can be given to an m-section) -/
+def free (s : State) (k : Nat) : Bool :=
+  match s.tpts[k]? with | some t => t.nstop = 0 | none => false
+
+/-- `self.__dtlsTransports.discard(t); self.__iceTransports.discard(t.transport)` once the record says so -/
+def syncSet (s : State) (k : Nat) (t : Tpt) : State := if t.inSet then s else { s with tset := s.tset.erase k }
 
 def setTrx (s : State) (i : Nat) (t : Trx) : State := { s with trxs := s.trxs.set i t }
 def setTpt (s : State) (k : Nat) (t : Tpt) : State := { s with tpts := s.tpts.set k t }
@@ -348,15 +369,15 @@ def step (s : State) : Action → Option State
   | .negBegin => if s.closed then none else some { s with inflight := s.inflight + 1 }
   | .negSpawn => if !s.closed && 0 < s.inflight then some { s with conns := s.conns ++ [{}] } else none
   | .negEnd => if 0 < s.inflight then some { s with inflight := s.inflight - 1 } else none
-  | .addTpt => if s.closed then none else some { s with tpts := s.tpts ++ [{}] }
-  | .addTrx k => if !s.closed && k < s.tpts.length then some { s with trxs := s.trxs ++ [{ tpt := k }] } else none
-  | .addSctp k => if !s.closed && s.sctp.isNone && k < s.tpts.length then some { s with sctp := some { tpt := k } } else none
+  | .addTpt => if s.closed then none else some { s with tpts := s.tpts ++ [{}], tset := s.tset ++ [s.tpts.length] }
+  | .addTrx k => if !s.closed && s.free k then some { s with trxs := s.trxs ++ [{ tpt := k }] } else none
+  | .addSctp k => if !s.closed && s.sctp.isNone && s.free k then some { s with sctp := some { tpt := k } } else none
   | .assignSctp k =>
     match s.sctp with
     | some sc =>
       match s.tpts[sc.tpt]? with
       | some old =>
-        if !s.closed && !sc.started && k < s.tpts.length && old.unstarted then some { s with sctp := some { sc with tpt := k } }
+        if !s.closed && !sc.started && s.free k && old.unstarted then some { s with sctp := some { sc with tpt := k } }
         else none
       | none => none
     | none => none
@@ -379,7 +400,7 @@ def step (s : State) : Action → Option State
         -- BUNDLE moves a transceiver off a transport that was never started
         match s.tpts[t.tpt]? with
         | some old =>
-          if !s.closed && k < s.tpts.length && old.unstarted then (trxStep s.liveConn t a).map (s.setTrx i) else none
+          if !s.closed && s.free k && old.unstarted then (trxStep s.liveConn t a).map (s.setTrx i) else none
         | none => none
       | .mkTrack => if s.closed then none else (trxStep s.liveConn t a).map (s.setTrx i)
       | _ => (trxStep s.liveConn t a).map (s.setTrx i)
@@ -389,8 +410,8 @@ def step (s : State) : Action → Option State
     | some t =>
       match a with
       | .pumpExit => (tptStep s.liveConn t a).map fun t' => (s.setTpt k t').autoTrigger
-      -- (a setRemoteDescription in flight may finish its BUNDLE clean-up after the close latch was set)
-      | .discard => if !s.refd k then (tptStep s.liveConn t a).map (s.setTpt k) else none
+      -- (the BUNDLE clean-up of a setRemoteDescription() in flight goes on while close() is suspended, and after it)
+      | .nstep => if !s.refd k then (tptStep s.liveConn t a).map fun t' => (s.setTpt k t').syncSet k t' else none
       | .iceStart | .dtlsStart => if s.refd k then (tptStep s.liveConn t a).map (s.setTpt k) else none
       | _ => (tptStep s.liveConn t a).map (s.setTpt k)
     | none => none
@@ -440,7 +461,7 @@ inductive Kind | input | task | observe
 `task`: a step of a task / thread / coroutine started by the connection; `observe`: pure observation. -/
 def Action.kind : Action → Kind
   | .closeCall false | .negBegin | .negSpawn | .negEnd | .addTpt | .addTrx _ | .addSctp _ | .assignSctp _ | .chanNew | .chanEv _ _ => .input
-  | .trx _ .mkTrack | .trx _ (.assign _) | .tpt _ .discard => .input
+  | .trx _ .mkTrack | .trx _ (.assign _) | .trx _ (.cancel _) => .input
   | .emit | .obsCancelConn _ | .obsAutoSpawn => .observe
   | _ => .task
 
